@@ -364,10 +364,11 @@ type codeBlock struct {
 	LastLine       int
 	labels         map[string]*gotoLabelDesc
 	firstGotoIndex int
+	dbgLocals      []int // indexes into Proto.DbgLocals of the locals declared in this block
 }
 
 func newCodeBlock(localvars *varNamePool, blabel int, parent *codeBlock, pos ast.PositionHolder, firstGotoIndex int) *codeBlock {
-	bl := &codeBlock{localvars, blabel, parent, false, 0, 0, map[string]*gotoLabelDesc{}, firstGotoIndex}
+	bl := &codeBlock{localvars, blabel, parent, false, 0, 0, map[string]*gotoLabelDesc{}, firstGotoIndex, nil}
 	if pos != nil {
 		bl.LineStart = pos.Line()
 		bl.LastLine = pos.LastLine()
@@ -543,6 +544,7 @@ func (fc *funcContext) BlockLocalVarsCount() int {
 
 func (fc *funcContext) RegisterLocalVar(name string) int {
 	ret := fc.Block.LocalVars.Register(name)
+	fc.Block.dbgLocals = append(fc.Block.dbgLocals, len(fc.Proto.DbgLocals))
 	fc.Proto.DbgLocals = append(fc.Proto.DbgLocals, &DbgLocalInfo{Name: name, StartPc: fc.Code.LastPC() + 1})
 	fc.SetRegTop(fc.RegTop() + 1)
 	return ret
@@ -597,8 +599,10 @@ func (fc *funcContext) LeaveBlock() int {
 }
 
 func (fc *funcContext) EndScope() {
-	for _, vr := range fc.Block.LocalVars.List() {
-		fc.Proto.DbgLocals[vr.Index].EndPc = fc.Code.LastPC()
+	// the debug records of this block's locals (a register index is not a record index once an
+	// inner block has been closed before a later local of this block is declared)
+	for _, idx := range fc.Block.dbgLocals {
+		fc.Proto.DbgLocals[idx].EndPc = fc.Code.LastPC()
 	}
 }
 
